@@ -47,5 +47,36 @@ PLANS = {
              'at >= 2 levels or that was consumed at a level different from where consultation started.',
         assumptions=['reference model R-dispatch/R-exec'],
     ),
+    'C08': dict(
+        oracle='C08', level='exploration',
+        profiles=[('history', 3), ('pseudo', 2)], curated=[], configs=ALLCFG,
+        cp=dict(max_ops=30, kinds=['P']), examples=(400, 3000), floor=(40, 400),
+        rule='Generated enter/move/exit histories on machines whose submachines carry each history policy (1-3 regions), incl. '
+             'explicit/fork/entry-point entries; oracle: entry behaviours per root region and active states of active machines '
+             'after each step equal R-history. Non-trivial = a (re-)entry of a history submachine whose remembered states differ '
+             'from its initial states; distinct by (spec, submachine, remembered states, entering event, entry sequence).',
+        assumptions=['reference model R-history as stated in C08'],
+    ),
+    'C09': dict(
+        oracle='C09', level='exploration',
+        profiles=[('pseudo', 5)], curated=[], configs=ALLCFG,
+        cp=dict(max_ops=30, kinds=['P']), examples=(400, 3000), floor=(100, 1000),
+        rule='Generated histories on machines combining direct<>, fork, entry_pt<> and exit_pt<> rows; oracle: every step that '
+             'touches a pseudo construct (pseudo state entered/left, pseudo row consulted, or an exit point event sent while the '
+             'exit point is not active) equals the model token for token, including the event each behaviour receives. '
+             'Non-trivial = such a step; distinct by (spec, configuration before, event, token sequence).',
+        assumptions=['reference model R-entry/exit-points as stated in C09', 'exit points are not combined with history on the same submachine'],
+    ),
+    'C10': dict(
+        oracle='C10', level='exploration',
+        profiles=[('completion', 5)], curated=[], configs=ALLCFG,
+        cp=dict(max_ops=30, kinds=['P', 'P', 'P', 'P', 'Q', 'Q', 'X', 'T']), examples=(400, 3000), floor=(100, 1000),
+        rule='Generated histories (process_event, enqueue_event, execute queued all/single, stop/start) on machines with completion '
+             'rows (chains, conflicts, guards frozen per entry of the source); oracle: per (machine,region) completion behaviours == '
+             'model, order of completion work relative to other occurrences == model, no no_transition for completion events, and '
+             '(model-free) no active simple state has an enabled completion row at a quiescent point. Non-trivial = a completion '
+             'firing with another occurrence pending, a chain >= 2, or conflicting completion rows.',
+        assumptions=['completion guards are frozen from the entry of their source state (property quantifier)'],
+    ),
 }
 NOT_YET = {}
